@@ -65,7 +65,7 @@ package aws
 //@   requires asgOK(n)
 //@   modifies Jlen, Jkind, Jname, Jnum, Jok
 //@   ensures Jlen == old(Jlen) + 1 && ajprefix(old(Jlen))
-//@   ensures [C17] Jkind[old(Jlen)] == A_SETDESIRED && Jname[old(Jlen)] == n.id && Jnum[old(Jlen)] == newSize && Jok[old(Jlen)] == (err == nil)
+//@   ensures [C17,C07] Jkind[old(Jlen)] == A_SETDESIRED && Jname[old(Jlen)] == n.id && Jnum[old(Jlen)] == newSize && Jok[old(Jlen)] == (err == nil)
 
 //@ spec ajprefix(m int) bool = forall k :: k < m ==> Jkind[k] == old(Jkind)[k] && Jname[k] == old(Jname)[k] && Jok[k] == old(Jok)[k] && Jnum[k] == old(Jnum)[k]
 
@@ -78,8 +78,8 @@ package aws
 //@   modifies Jlen, Jkind, Jname, Jnum, Jok, Jaux, ATTs, TERMs, n.terminateInstancesTries
 //@   ensures Jlen >= old(Jlen) && ajprefix(old(Jlen))
 //@   ensures [C17,C04] delta <= 0 || desired(n) + delta > amax(n) ==> err != nil && Jlen == old(Jlen)
-//@   ensures [C17] n.config.AWSConfig.LaunchTemplateID == "" && delta > 0 && desired(n) + delta <= amax(n) ==> Jlen == old(Jlen) + 1 && Jkind[old(Jlen)] == A_SETDESIRED && Jname[old(Jlen)] == n.id && Jnum[old(Jlen)] == desired(n) + delta && Jnum[old(Jlen)] > desired(n) && Jok[old(Jlen)] == (err == nil)
-//@   ensures [C17] forall k :: old(Jlen) <= k && k < Jlen && Jkind[k] == A_SETDESIRED ==> Jnum[k] == desired(n) + delta
+//@   ensures [C17,C07] n.config.AWSConfig.LaunchTemplateID == "" && delta > 0 && desired(n) + delta <= amax(n) ==> Jlen == old(Jlen) + 1 && Jkind[old(Jlen)] == A_SETDESIRED && Jname[old(Jlen)] == n.id && Jnum[old(Jlen)] == desired(n) + delta && Jnum[old(Jlen)] > desired(n) && Jok[old(Jlen)] == (err == nil)
+//@   ensures [C17,C07] forall k :: old(Jlen) <= k && k < Jlen && Jkind[k] == A_SETDESIRED ==> Jnum[k] == desired(n) + delta
 
 // ---------------------------------------------------------------- aws.go: DeleteNodes (C19)
 
@@ -145,7 +145,7 @@ package aws
 // AttachInstances: at most 20 ids per call (documented API limit). On success the ids are attached.
 //@ iface github.com/aws/aws-sdk-go/service/autoscaling/autoscalingiface.AutoScalingAPI.AttachInstances(api, input) (out, err)
 //@   requires input != nil && input.AutoScalingGroupName != nil
-//@   requires [C17] len(input.InstanceIds) <= 20
+//@   requires [C17,C07] len(input.InstanceIds) <= 20
 //@   modifies Jlen, Jkind, Jname, Jnum, Jok, ATTs
 //@   ensures Jlen == old(Jlen) + 1 && Jkind == old(Jkind)[old(Jlen) := A_ATTACH] && Jname == old(Jname)[old(Jlen) := deref(input.AutoScalingGroupName)] && Jnum == old(Jnum)[old(Jlen) := len(input.InstanceIds)] && Jok == old(Jok)[old(Jlen) := err == nil]
 //@   ensures err != nil ==> ATTs == old(ATTs)
